@@ -488,6 +488,12 @@ Proof.
   - intros ->. discriminate.
 Qed.
 
+Lemma is_hex_nbrk x : is_hex x = true -> (x =? CR) || (x =? LF) = false.
+Proof.
+  unfold is_hex. intros H.
+  destruct (Z.eqb_spec x CR) as [->|_]; [discriminate|]. destruct (Z.eqb_spec x LF) as [->|_]; [discriminate|]. reflexivity.
+Qed.
+
 Definition esc_state_inv (s : est) (hc : Z) (used : list Z) : Prop :=
   match s with
   | sBegin => used = []
@@ -522,7 +528,9 @@ Proof.
         cbn in E2. subst b. cbn in E. inversion E; subst. cbn [app].
         apply (EC_quote _ _ _ _ cch); auto.
       * inversion E; subst. apply (EC_kept _ _ _ _ used); auto.
-    + set (buf' := buf ++ [cch]) in *.
+    + destruct ((cch =? CR) || (cch =? LF)) eqn:Ebrk.
+      { inversion E; subst. apply (EC_kept _ _ _ _ used); auto. }
+      set (buf' := buf ++ [cch]) in *.
       assert (Hbuf' : buf' = BT :: (used ++ [cch])) by (unfold buf'; rewrite Hbuf; reflexivity).
       assert (Hn' : n + 1 = Z.of_nat (length (used ++ [cch]))) by (rewrite app_length; cbn [length]; lia).
       assert (Hq' : Forall notq (used ++ [cch])) by (apply Forall_app; split; [assumption|constructor; [exact Eq|constructor]]).
@@ -677,12 +685,13 @@ Lemma esc_loop_hex : forall ds cur hc buf n R, Forall hexd ds ->
   end.
 Proof.
   induction ds as [|d ds IH]; intros cur hc buf n R Hds.
-  - cbn [app length esc_loop peek hd]. change (is_quote BT) with false. change (is_hex BT) with false.
+  - cbn [app length esc_loop peek hd]. change (is_quote BT) with false. change ((BT =? CR) || (BT =? LF)) with false.
+    change (is_hex BT) with false.
     cbn [andb]. rewrite esc_trans_BT. change (BT =? BT) with true. cbv iota.
     replace (hc + Z.of_nat 0) with hc by (cbn; lia). replace (n + Z.of_nat 0 + 1) with (n + 1) by (cbn; lia).
     reflexivity.
   - inversion Hds as [|? ? Hd Hds']; subst. cbn [app esc_loop peek hd].
-    destruct (is_hex_notq _ Hd) as [Hq _]. rewrite Hq. unfold hexd in Hd. rewrite Hd.
+    destruct (is_hex_notq _ Hd) as [Hq _]. rewrite Hq. unfold hexd in Hd. rewrite (is_hex_nbrk _ Hd), Hd.
     cbn [est_eqb andb]. rewrite (IH d (hc + 1) (buf ++ [d]) (n + 1) R Hds').
     cbn [length]. rewrite <- !app_assoc. cbn [app].
     replace (hc + 1 + Z.of_nat (length ds)) with (hc + Z.of_nat (S (length ds))) by lia.
@@ -700,7 +709,7 @@ Proof.
   intros ds R Hds Hl. destruct ds as [|d ds]; [cbn in Hl; lia|].
   inversion Hds as [|? ? Hd Hds']; subst.
   rewrite unescape_UP. cbn [app esc_loop peek hd].
-  destruct (is_hex_notq _ Hd) as [Hq _]. rewrite Hq. unfold hexd in Hd. rewrite Hd. cbn [est_eqb andb].
+  destruct (is_hex_notq _ Hd) as [Hq _]. rewrite Hq. unfold hexd in Hd. rewrite (is_hex_nbrk _ Hd), Hd. cbn [est_eqb andb].
   rewrite (esc_loop_hex ds d 1 _ _ R Hds'). cbn [app].
   unfold esc_close. cbn [lookup_name esc_names list_eqb].
   change (85 =? 84) with false. change (85 =? 66) with false. change (85 =? 83) with false.
@@ -751,3 +760,46 @@ Proof.
   unfold parse_hex32. rewrite H3. change (16 ^ Z.of_nat 8) with 4294967296.
   rewrite Z.mod_small by lia. rewrite Z.min_l by lia. reflexivity.
 Qed.
+
+(* ------------------------------------------------------------------ the machine never takes a line break (repair 7640347) *)
+Definition nbrk (x : Z) : Prop := (x =? CR) || (x =? LF) = false.
+
+Lemma is_quote_nbrk q : is_quote q = true -> nbrk q.
+Proof.
+  intros H. destruct (is_quote_not_special q H) as (_ & H1 & H2 & _). unfold nbrk.
+  apply Z.eqb_neq in H1, H2. rewrite H1, H2. reflexivity.
+Qed.
+
+Lemma esc_loop_no_break : forall rest cur s hc buf n out n' R2,
+  esc_loop cur s hc buf n rest = (out, n', R2) ->
+  exists used, rest = used ++ R2 /\ n' = n + Z.of_nat (length used) /\ Forall nbrk used.
+Proof.
+  induction rest as [|cch rest' IH]; intros cur s hc buf n out n' R2 E.
+  - cbn in E. inversion E; subst. exists []; split; [reflexivity|split; [cbn; lia|constructor]].
+  - cbn [esc_loop peek hd] in E. destruct (is_quote cch) eqn:Eq.
+    + destruct ((cur =? BT) && (peek2 (cch :: rest') =? BT)) eqn:Eb.
+      * apply andb_true_iff in Eb. destruct Eb as [_ E2]. apply Z.eqb_eq in E2.
+        destruct rest' as [|b R']; [cbn in E2; discriminate|]. cbn in E2. subst b. cbn [tl] in E. inversion E; subst.
+        exists [cch; BT]. split; [reflexivity|split; [cbn; lia|]].
+        constructor; [apply is_quote_nbrk; exact Eq|constructor; [reflexivity|constructor]].
+      * inversion E; subst. exists []; split; [reflexivity|split; [cbn; lia|constructor]].
+    + destruct ((cch =? CR) || (cch =? LF)) eqn:Ebrk.
+      { inversion E; subst. exists []; split; [reflexivity|split; [cbn; lia|constructor]]. }
+      assert (REC : forall cur' s' hc', esc_loop cur' s' hc' (buf ++ [cch]) (n + 1) rest' = (out, n', R2) ->
+                    exists used, cch :: rest' = used ++ R2 /\ n' = n + Z.of_nat (length used) /\ Forall nbrk used).
+      { intros cur' s' hc' E'. apply IH in E'. destruct E' as (used & -> & -> & F). exists (cch :: used).
+        split; [reflexivity|split; [cbn [length]; lia|constructor; [exact Ebrk|exact F]]]. }
+      assert (ONE : exists used, cch :: rest' = used ++ rest' /\ n + 1 = n + Z.of_nat (length used) /\ Forall nbrk used).
+      { exists [cch]. split; [reflexivity|split; [reflexivity|constructor; [exact Ebrk|constructor]]]. }
+      destruct (is_hex cch && est_eqb s smP); [eapply REC; exact E|].
+      destruct (is_hex cch && est_eqb s sHexNum); [eapply REC; exact E|].
+      destruct (esc_trans s cch) as [s'|]; [eapply REC; exact E|].
+      destruct (cch =? BT).
+      * destruct (esc_close s hc (buf ++ [cch])); inversion E; subst; exact ONE.
+      * inversion E; subst; exact ONE.
+Qed.
+
+(* what the escape machine consumes is a prefix of its input that contains no CR / LF *)
+Theorem unescape_no_break : forall R out n R2, unescape R = (out, n, R2) ->
+  exists used, R = used ++ R2 /\ n = Z.of_nat (length used) /\ Forall nbrk used.
+Proof. intros R out n R2 E. apply esc_loop_no_break in E. exact E. Qed.
